@@ -9,7 +9,7 @@ def run(ctx):
     mods = ["TomlVerif.Gen.CheckLex", "TomlVerif.Props.C03", "driver"]
     lake_build(ctx, mods, {"TomlVerif.Gen.CheckLex": "table theorems", "TomlVerif.Props.C03": "property theorems"})
     audit(ctx, "TomlVerif.Props.C03", "TomlVerif/Props/C03.lean")
-    extra_props(ctx, ['C03Doc', 'C03Hdr'])
+    extra_props(ctx, ['C03Doc', 'C03Hdr', 'C03Nest'])
     if ctx.tier == "thorough":
         leanchecker(ctx, "TomlVerif.Props.C03")
     tvh = cargo_build(ctx)
